@@ -41,10 +41,19 @@
 /* incremented with each request */
 static unsigned int uuid = 0;
 
+static const char *text_of_request_id(const cJSON *origin_request_id)
+{
+	/* Only a string id has text. The counter and the address make a routed id unique. */
+	if (origin_request_id->type == cJSON_String) {
+		return origin_request_id->valuestring;
+	}
+	return "";
+}
+
 static size_t calculate_size_for_routed_request_id(const void *address, const cJSON *origin_request_id)
 {
 	if (origin_request_id != NULL) {
-		return snprintf(NULL, 0, "%s_%x_%p", origin_request_id->valuestring, uuid, address);
+		return snprintf(NULL, 0, "%s_%x_%p", text_of_request_id(origin_request_id), uuid, address);
 	} else {
 		return snprintf(NULL, 0, "%x_%p", uuid, address);
 	}
@@ -53,7 +62,7 @@ static size_t calculate_size_for_routed_request_id(const void *address, const cJ
 static void fill_routed_request_id(char *buf, size_t buf_size, const void *address, const cJSON *origin_request_id)
 {
 	if (origin_request_id != NULL) {
-		snprintf(buf, buf_size, "%s_%x_%p", origin_request_id->valuestring, uuid, address);
+		snprintf(buf, buf_size, "%s_%x_%p", text_of_request_id(origin_request_id), uuid, address);
 	} else {
 		snprintf(buf, buf_size, "%x_%p", uuid, address);
 	}
